@@ -6,6 +6,8 @@ import (
 	"bytes"
 	"encoding/binary"
 	"fmt"
+	"sync"
+	"sync/atomic"
 	"testing"
 
 	conformancev1 "connectrpc.com/conformance/internal/gen/proto/go/connectrpc/conformance/v1"
@@ -16,15 +18,22 @@ import (
 
 // TestVerifC17Inverse: the raw body encoders are invertible.
 func TestVerifC17Inverse(t *testing.T) {
-	rep := verifkit.Begin("C17", "encoders-inverse", "random MessageContents (binary/text/binary_message/absent/present-but-empty x 7 compression values) and StreamContents (0-5 items, flags 0..255, length unset or explicit) through WriteRawMessageContents / WriteRawStreamContents; decoding the output with independent decompressors and an independent envelope parser returns the specified items; flags above 255 are rejected; distinct = definitions")
+	rep := verifkit.Begin("C17", "encoders-inverse", "random MessageContents (binary up to 200 bytes and around 4 KB ... 70 KB / text / binary_message / absent / present-but-empty x 7 compression values) and StreamContents (0-5 items, flags 0..255, length unset or explicit) through WriteRawMessageContents / WriteRawStreamContents; decoding the output with independent decompressors and an independent envelope parser returns the specified items; flags above 255 are rejected; distinct = definitions")
 	defer rep.Write()
 	rng := verifkit.Stream("c17inv")
 	n := verifkit.Scale(6000, 200000)
+	largePayloads := 0
 	mk := func() *conformancev1.MessageContents {
 		m := &conformancev1.MessageContents{Compression: conformancev1.Compression(rng.Intn(7))}
 		switch rng.Intn(5) {
 		case 0:
-			m.Data = &conformancev1.MessageContents_Binary{Binary: rng.Bytes(rng.Intn(200))}
+			sz := rng.Intn(200)
+			if rng.Chance(1, 12) {
+				// payloads around and beyond typical buffer sizes
+				sz = verifkit.Pick(rng, []int{4090, 4091, 4092, 4093, 4096, 5000, 8191, 8192, 16384, 32768, 70000}) + rng.Intn(3) - 1
+				largePayloads++
+			}
+			m.Data = &conformancev1.MessageContents_Binary{Binary: rng.Bytes(sz)}
 		case 1:
 			m.Data = &conformancev1.MessageContents_Text{Text: verifkit.RandUTF8(rng, 40, true)}
 		case 2:
@@ -136,5 +145,76 @@ func TestVerifC17Inverse(t *testing.T) {
 		rep.Violation("raw/encoder/flags-out-of-range-accepted", "flags 256 accepted", nil)
 	}
 	rep.Eval(1)
+	rep.Count("payloads_of_4_to_70_KB", largePayloads)
+	rep.RequireMin("payloads_of_4_to_70_KB", 100)
 	rep.Sample(map[string]any{"stream": "[flags=2 length=0 payload gzip('x')]", "expect": "02 00000000 + gzip bytes; gunzip returns 'x'"})
+}
+
+// TestVerifC17EncodersConcurrent: the reference peers encode raw bodies for several calls at the same time
+// (the runner issues cases in parallel): every writer receives exactly its own body.
+func TestVerifC17EncodersConcurrent(t *testing.T) {
+	rep := verifkit.Begin("C17", "encoders-concurrent", "8 goroutines, each encoding its own unary bodies and 2-item streams (payload = 48 x its own letter; identity / unspecified / gzip compression) into its own buffer via WriteRawMessageContents / WriteRawStreamContents, all at the same time; oracle: each buffer holds exactly what that goroutine's definition prescribes; distinct = (goroutine, compression, body kind)")
+	defer rep.Write()
+	const workers = 8
+	per := verifkit.Scale(4000, 60000)
+	type bad struct {
+		Worker, Iter int
+		Kind, Want   string
+		Got          string
+	}
+	var mu sync.Mutex
+	var bads []bad
+	var bodies atomic.Int64
+	var wg sync.WaitGroup
+	for wk := 0; wk < workers; wk++ {
+		wg.Add(1)
+		go func(wk int) {
+			defer wg.Done()
+			payload := bytes.Repeat([]byte{byte('A' + wk)}, 48)
+			comps := []conformancev1.Compression{conformancev1.Compression_COMPRESSION_IDENTITY, conformancev1.Compression_COMPRESSION_UNSPECIFIED, conformancev1.Compression_COMPRESSION_GZIP}
+			for i := 0; i < per; i++ {
+				comp := comps[i%3]
+				m := &conformancev1.MessageContents{Compression: comp, Data: &conformancev1.MessageContents_Binary{Binary: payload}}
+				var buf bytes.Buffer
+				var want []byte
+				kind := "unary"
+				if i%2 == 0 {
+					_ = WriteRawMessageContents(m, &buf)
+					want, _ = verifkit.IndepCompress(verifkit.CompressionName(comp), payload)
+				} else {
+					kind = "stream"
+					sc := &conformancev1.StreamContents{Items: []*conformancev1.StreamContents_StreamItem{{Flags: uint32(wk), Payload: m}, {Flags: 2, Payload: m}}}
+					_ = WriteRawStreamContents(sc, &buf)
+					want, _ = verifkit.RawStreamExpected(sc)
+				}
+				bodies.Add(1)
+				got := buf.Bytes()
+				same := bytes.Equal(got, want)
+				if !same && comp == conformancev1.Compression_COMPRESSION_GZIP {
+					// gzip output need not be byte-identical to the independent encoder's: compare decoded
+					if kind == "unary" {
+						dec, err := verifkit.RawMessageDecode(m, got)
+						same = err == nil && bytes.Equal(dec, payload)
+					} else {
+						same = true // (stream framing of compressed items is judged by encoders-inverse)
+					}
+				}
+				if !same {
+					mu.Lock()
+					if len(bads) < 5 {
+						bads = append(bads, bad{wk, i, kind + "/" + verifkit.CompressionName(comp), verifkit.Trunc(fmt.Sprintf("%q", want), 120), verifkit.Trunc(fmt.Sprintf("%q", got), 200)})
+					}
+					mu.Unlock()
+				}
+			}
+		}(wk)
+	}
+	wg.Wait()
+	rep.Eval(int(bodies.Load()))
+	rep.Distinct = workers * 3 * 2
+	rep.Count("bodies_encoded_concurrently", int(bodies.Load()))
+	if len(bads) > 0 {
+		rep.Violation("raw/encoder/concurrent-bodies-mixed", fmt.Sprintf("goroutine %d, body #%d (%s): the writer received %s, the definition prescribes %s", bads[0].Worker, bads[0].Iter, bads[0].Kind, bads[0].Got, bads[0].Want), map[string]any{"first_mismatches": bads})
+	}
+	rep.Sample(map[string]any{"goroutine": 1, "body": "48 x 'B', identity", "expect": "exactly 48 x 'B' in goroutine 1's buffer"})
 }
